@@ -30,6 +30,8 @@ type T2 struct {
 	Code string `valid:"zz,le=3"`
 }
 
+var sharedRM = valid.RM{}
+
 type LongSlices struct {
 	S []string `valid:"unique,ints,le=100"`
 	I []int    `valid:"unique,ints,le=100"`
@@ -160,6 +162,29 @@ func callMenu() []callT {
 			}
 			return []interface{}{&LongSlices{S: v, I: w}}
 		}, func(a []interface{}) (string, []string) { return errText(valid.Struct(a[0])), nil }, nil},
+		// calls rejected before validation although they carry rules
+		{"StructForFn(typed nil, rm)", func() []interface{} { return []interface{}{(*T1)(nil), valid.RM{"F": "required|leak-F", "G": "eq=77|leak-G"}} },
+			func(a []interface{}) (string, []string) { return errText(valid.StructForFn(a[0], a[1].(valid.RM))), nil }, nil},
+		{"StructForFns(nil, rm, fns)", func() []interface{} {
+			return []interface{}{nil, valid.RM{"Code": "zz|leak"}, valid.Name2FnMap{"zz": zzFn, "phone": lenientPhone}}
+		}, func(a []interface{}) (string, []string) {
+			return errText(valid.StructForFns(a[0], a[1].(valid.RM), a[2].(valid.Name2FnMap))), nil
+		}, nil},
+		// one rule-map object whose content differs from call to call (same address, same number of keys)
+		{"Map(shared rm: to=1~10)", func() []interface{} {
+			sharedRM["k"], sharedRM["j"] = "to=1~10|wide", "required|need-j"
+			return []interface{}{map[string]int{"k": 15, "j": 1}, sharedRM}
+		}, func(a []interface{}) (string, []string) { return errText(valid.Map(a[0], a[1].(valid.RM))), nil },
+			func() (string, bool) { return `"map[k]" input "15", explain: wide`, true }},
+		{"Map(shared rm: to=1~20)", func() []interface{} {
+			sharedRM["k"], sharedRM["j"] = "to=1~20|wider", "eq=2|two"
+			return []interface{}{map[string]int{"k": 15, "j": 1}, sharedRM}
+		}, func(a []interface{}) (string, []string) { return errText(valid.Map(a[0], a[1].(valid.RM))), nil },
+			func() (string, bool) { return `"map[j]" input "1", explain: two`, true }},
+		{"Url(shared rm)", func() []interface{} {
+			sharedRM["k"], sharedRM["j"] = "eq=2|len2", "phone|tel"
+			return []interface{}{"http://h/p?k=abc&j=12", sharedRM}
+		}, func(a []interface{}) (string, []string) { return errText(valid.Url(a[0], a[1].(valid.RM))), nil }, nil},
 		{"GenValidKV+Explain", func() []interface{} { return []interface{}{"to", "1~10", "需要在 1-10"} },
 			func(a []interface{}) (string, []string) {
 				s := valid.GenValidKV(a[0].(string), a[1].(string), a[2].(string))
@@ -424,7 +449,7 @@ func main() {
 	runner.Main(runner.Config{
 		Property:  "C12",
 		Technique: "all call sequences/permutations up to a depth, single-threaded under the controlled scheduler with every sync.Pool.Get answer enumerated (deviation-bounded); fresh-state oracle + aliasing re-reads",
-		Rule: "22 heterogeneous calls (long unsorted slices under unique, datetime with custom and default separators, calls rejected before validation (unsupported / nil source), two rule sets registered in one call, struct with default tag / tag b / per-call rules / per-call functions, group rules over a slice, Var with quoted rules, Map, Url, a call returning before validation, splitter, builder+extractor); " +
+		Rule: "27 heterogeneous calls (calls rejected before validation although they carry rules, one rule-map object whose content differs from call to call, long unsorted slices under unique, datetime with custom and default separators, calls rejected before validation (unsupported / nil source), two rule sets registered in one call, struct with default tag / tag b / per-call rules / per-call functions, group rules over a slice, Var with quoted rules, Map, Url, a call returning before validation, splitter, builder+extractor); " +
 			"all sequences of length<=3 (thorough: <=4), all sequences of length 3 again on a one-entry type cache after 0..5 evictions, and all permutations of 4-subsets; per sequence every Pool.Get answer (top / other pooled object / New) within the deviation bound; per call: result = fresh-state result (= model for struct calls), " +
 			"arguments deep-equal to a fresh copy, every previously handed-out error string / rule token re-compared with its detached copy; transitions = scheduling steps; states = distinct result vectors; non-trivial = sequences of >=2 calls",
 		Assumptions: []string{"pool answers are owned by the scheduler shim (sync.Pool replaced through the build overlay)", "global type cache fresh per execution (delegating CacheEr)"},
